@@ -137,3 +137,39 @@ M("C12", "any-to-all", SYM, "    return any(\n        isinstance(binding, CanBeh
 R("C12", "flag-positional", PRF, "            function, args, kwargs, ignore_first=False\n", "            function, args, kwargs, False\n")
 R("C12", "rename-merged", PRF, "all_kwargs", "merged", count=99)
 CASES[:] = [c for c in CASES if c]
+
+# ------------------------------------------------------------------------------------- C14
+SGF = "krrood/entity_query_language/symbol_graph.py"
+PRL = "krrood/ontomatic/property_descriptor/property_descriptor_relation.py"
+M("C14", "no-relation-purge", SGF, "        for source, target, relation in list(\n            self._instance_graph.in_edges(index)\n        ) + list(self._instance_graph.out_edges(index)):\n            self._relation_index.get(relation.wrapped_field, set()).discard(\n                (source, target)\n            )\n", "", "_relation_index")
+M("C14", "pop-by-dead-id", SGF, "        if self._instance_index.get(wrapped_instance.instance_id) is wrapped_instance:\n            del self._instance_index[wrapped_instance.instance_id]\n", "        self._instance_index.pop(id(wrapped_instance.instance), None)\n", "removal-key")
+M("C14", "unconditional-delete", SGF, "        if self._instance_index.get(wrapped_instance.instance_id) is wrapped_instance:\n            del self._instance_index[wrapped_instance.instance_id]\n", "        self._instance_index.pop(wrapped_instance.instance_id, None)\n", "own-entry")
+M("C14", "no-index-purge", SGF, "        if self._instance_index.get(wrapped_instance.instance_id) is wrapped_instance:\n            del self._instance_index[wrapped_instance.instance_id]\n", "", "_instance_index")
+M("C14", "no-class-list-purge", SGF, "        self._class_to_wrapped_instances[wrapped_instance.instance_type].remove(\n            wrapped_instance\n        )\n", "", "_class_to_wrapped_instances")
+M("C14", "lookup-unvalidated", SGF, "        if wrapped_instance is not None and wrapped_instance.instance is not instance:\n            return None\n", "", "lookup")
+M("C14", "exists-source-only", SGF, "        return (\n            relation.source.index,\n            relation.target.index,\n        ) in self._relation_index.get(relation.wrapped_field, set())", "        return any(\n            s == relation.source.index\n            for s, _ in self._relation_index.get(relation.wrapped_field, set())\n        )", "relation-key")
+M("C14", "index-swapped-pair", SGF, "        self._relation_index[relation.wrapped_field].add(\n            (relation.source.index, relation.target.index)\n        )", "        self._relation_index[relation.wrapped_field].add(\n            (relation.target.index, relation.source.index)\n        )", "relation-key")
+M("C14", "add-returns-false", SGF, "            (relation.source.index, relation.target.index)\n        )\n        return True", "            (relation.source.index, relation.target.index)\n        )\n        return False", "new->True")
+M("C14", "index-not-recorded", SGF, "        if relation.wrapped_field not in self._relation_index:\n            self._relation_index[relation.wrapped_field] = set()\n        self._relation_index[relation.wrapped_field].add(\n            (relation.source.index, relation.target.index)\n        )\n", "", "")
+M("C14", "infer-ungated", PRL, "        if super().add_to_graph():\n            if self.inferred:\n                self.update_source_wrapped_field_value()\n            self.infer_super_relations()", "        if super().add_to_graph():\n            if self.inferred:\n                self.update_source_wrapped_field_value()\n        if True:\n            self.infer_super_relations()", "gate")
+M("C14", "exists-by-field-name", SGF, "        ) in self._relation_index.get(relation.wrapped_field, set())", "        ) in self._relation_index.get(relation.wrapped_field.name, set())", "relation-index-field-key")
+R("C14", "purge-by-scan", SGF, "        for source, target, relation in list(\n            self._instance_graph.in_edges(index)\n        ) + list(self._instance_graph.out_edges(index)):\n            self._relation_index.get(relation.wrapped_field, set()).discard(\n                (source, target)\n            )\n",
+  "        for pairs in self._relation_index.values():\n            pairs.difference_update({p for p in pairs if index in p})\n")
+R("C14", "rename-param", SGF, "wrapped_instance.index = self._instance_graph.add_node(wrapped_instance)", "wrapped_instance.index = self._instance_graph.add_node(wrapped_instance)")
+
+# ------------------------------------------------------------------------------------- C13
+ENT = "krrood/entity_query_language/entity.py"
+M("C13", "dedupe-removed", UT, "    return list(dict.fromkeys(subclasses))\n", "    return subclasses\n", "each-class-once")
+M("C13", "register-skipped-for-some", PRF, "        instance = super().__new__(cls)\n        update_cache(instance)\n        return instance", "        instance = super().__new__(cls)\n        if kwargs:\n            update_cache(instance)\n        return instance", "SG-REGISTER")
+M("C13", "register-removed", PRF, "        instance = super().__new__(cls)\n        update_cache(instance)\n        return instance", "        instance = super().__new__(cls)\n        return instance", "SG-REGISTER")
+M("C13", "predicate-bypasses-symbol-new", PRF, "        return super().__new__(cls)\n\n    @abstractmethod", "        return object.__new__(cls)\n\n    @abstractmethod", "SG-REGISTER")
+M("C13", "update-cache-only-dataclasses", PRF, "    if not isinstance(instance, Predicate):\n        SymbolGraph().add_node(WrappedInstance(instance))", "    if not isinstance(instance, Predicate) and hasattr(instance, '__dataclass_fields__'):\n        SymbolGraph().add_node(WrappedInstance(instance))", "update_cache")
+M("C13", "lookup-without-subclasses", SGF, "            for cls in [type_] + recursive_subclasses(type_)\n", "            for cls in [type_]\n", "type-and-subclasses")
+M("C13", "lookup-direct-subclasses-only", UT, "    subclasses = cls.__subclasses__() + [\n        g for s in cls.__subclasses__() for g in recursive_subclasses(s)\n    ]", "    subclasses = cls.__subclasses__() + []", "transitive")
+M("C13", "no-sweep", SYM, "        SymbolGraph().remove_dead_instances()\n        yield from map(self._process_result_, self._evaluate__())", "        yield from map(self._process_result_, self._evaluate__())", "sweep-first")
+M("C13", "sweep-after", SYM, "        SymbolGraph().remove_dead_instances()\n        yield from map(self._process_result_, self._evaluate__())", "        yield from map(self._process_result_, self._evaluate__())\n        SymbolGraph().remove_dead_instances()", "sweep-first")
+M("C13", "sweep-only-inferred", SGF, "            if node.instance is None:\n                self.remove_node(node)", "            if node.instance is None and node.inferred:\n                self.remove_node(node)", "all-dead-nodes")
+R("C13", "dedupe-by-seen-list", UT, "    subclasses = cls.__subclasses__() + [\n        g for s in cls.__subclasses__() for g in recursive_subclasses(s)\n    ]\n    # a class that is reachable through several bases (diamond inheritance) is found more than once\n    return list(dict.fromkeys(subclasses))\n",
+  "    result = []\n    for s in cls.__subclasses__():\n        for g in [s] + recursive_subclasses(s):\n            if g not in result:\n                result.append(g)\n    return result\n")
+R("C13", "for-loop-lookup", SGF, "        yield from (\n            instance.instance\n            for cls in [type_] + recursive_subclasses(type_)\n            for instance in list(self._class_to_wrapped_instances[cls])\n        )",
+  "        for cls in [type_] + recursive_subclasses(type_):\n            for instance in list(self._class_to_wrapped_instances[cls]):\n                yield instance.instance")
